@@ -148,7 +148,10 @@ func HarnessC01Agree(st any) {
 	// ServeHTTP: every route ignores trailing slashes, so the handler runs for direct and tsr matches
 	// (except path "/" and CONNECT, which never take a trailing-slash action).
 	if s.prime != nil {
-		s.r.ServeHTTP(s.writer, s.prime)
+		// three times: whichever pooled context the runtime hands out next has served the priming request
+		for k := 0; k < 3; k++ {
+			s.r.ServeHTTP(s.writer, s.prime)
+		}
 		sym.Cover("primed with an ignored trailing-slash match")
 	}
 	s.servedHit, s.served, s.servedPs = false, nil, nil
